@@ -249,6 +249,14 @@ def corpus():
         b = _small(rng, genb.rnd_bundle(rng, nblocks=rng.randrange(0, 4), crc_kind=0))
         ref, spans, lens, crcs = _meta(b)
         out.append(_line(ref, "N", 0, lens, crcs))
+    # uncorrupted bundles in which the correct CRC of a block is exactly zero (1 block in 65536 / 2^32: the value coincides with the
+    # all-zero placeholder of a CRC that was never calculated): they must pass like any other uncorrupted bundle
+    seen = set()
+    for b in genb.zero_crc_bundles():
+        ref, spans, lens, crcs = _meta(b)
+        if bytes(ref) not in seen:
+            seen.add(bytes(ref))
+            out.append(_line(ref, "U", 0, lens, crcs))
     return out
 
 
